@@ -159,6 +159,10 @@ class Gen:
         return base
 
     def target(self, d):
+        if d > 0 and self.r.chance(1, 9):
+            # a parenthesised target is a target too
+            self.tags.add('target-paren')
+            return "(" + self.target(d - 1) + ")"
         k = self.r.below(10)
         if k < 5 or d <= 0:
             return self.ident()
@@ -489,6 +493,12 @@ class Gen:
                 self.tags.add('private-name')
                 m = self.method()
                 members.append("#pf = " + self.expr(d) + "; #pm(v){ return this.#pf." + m + "(v) + this.#pf." + m + ".call(v, " + self.expr(d) + ") + this.#pm.call(this, v) + this.#pf.trim.apply(v, [1]); }")
+            elif k == 6 and self.r.chance(1, 2):
+                self.tags.add('super-target')
+                key = lambda: self.r.choice(["k", "f()", "i++", self.ident() + " + " + self.ident(), "'key'", self.ident() + "." + self.method() + "()"])
+                forms = ["super[%s] += %s;" % (key(), self.expr(d)), "super.p += %s;" % self.expr(d), "(super[%s]) += %s;" % (key(), self.expr(d)),
+                         "x = super[%s] + %s;" % (key(), self.operand(d))]
+                members.append("sm(v) { " + " ".join(self.r.choice(forms) for _ in range(1 + self.r.below(3))) + " }")
             else:
                 members.append("m(" + self.params(d) + ") { " + self.stmts(d, 2) + " }")
         return "class K" + str(self.r.below(5)) + self.r.choice(["", " extends Base"]) + " { " + " ".join(members) + " }"
